@@ -52,7 +52,8 @@ PROPS["C14"] = {
             "mounts": [("c14_timed.rs", "syscall/unix/mod.rs")],
             "harnesses": ["c14_sleep_all_secs", "c14_usleep_all_micros", "c14_nanosleep_all_timespec",
                           "c14_poll_timeout_le_64ms", "c14_poll_ready_returns_result", "c14_select_timeout_unit", "c14_select_timeout_le_64ms",
-                          "c14_select_invalid_timeval", "c14_cond_timedwait_deadline"],
+                          "c14_select_invalid_timeval", "c14_cond_timedwait_deadline",
+                          "c14_select_any_timeval_first_slices", "c14_poll_any_timeout_first_slices"],
             "timeout": 300,
         },
     ],
@@ -150,8 +151,11 @@ PROPS["C19"] = {
     "groups": [
         {
             "mounts": [("c19_sockopt.rs", "syscall/unix/mod.rs")],
-            "harnesses": ["c19_history_2", "c19_history_3"],
-            "thorough_harnesses": ["c19_history_4"],
+            # E6: the two libc::getsockopt FFI calls of send_time_limit/recv_time_limit go to the kernel-option model
+            "subs": [("syscall/unix/mod.rs", "libc::getsockopt(", "verif_c19_sockopt::k_getsockopt(", None)],
+            "harnesses": ["c19_step_set_rcvtimeo", "c19_step_set_sndtimeo", "c19_step_query_recv_limit",
+                          "c19_step_query_send_limit", "c19_step_close_and_reuse", "c19_conversion_all_timeval", "c19_history_2"],
+            "thorough_harnesses": ["c19_history_3"],
             "timeout": 600, "timeout_thorough": 3000,
         },
     ],
